@@ -25,6 +25,10 @@ ASYNC_HOLDERS = {"buffer", "delay", "rate_limit", "map_async", "timed_window", "
                  "timed_window_unique", "latest"}
 
 
+SYNC_HOLDERS = {"collect", "partition", "partition_unique", "sliding_window", "zip",
+                "combine_latest", "zip_latest"}
+
+
 def em_of(ident):
     return ident[0] if isinstance(ident, tuple) else ident
 
@@ -123,14 +127,17 @@ def oracle(spec, run, pid=ID):
             # data after update() returns, that had received data derived from k and not yet
             # handed all of it on
             where = "?"
-            for i in reversed(range(len(nodes))):
-                nd = nodes[i]
-                if nd["k"] not in ASYNC_HOLDERS:
-                    continue
-                a = sum(1 for z in ev[:T] if z[0] == "arr" and z[1] == i and k in prov(z[3]))
-                o = sum(1 for z in ev[:T] if z[0] == "rec" and z[1] == i and k in prov(z[2]))
-                if a > o:
-                    where = nd["k"]
+            for holders in (ASYNC_HOLDERS, SYNC_HOLDERS):
+                for i in reversed(range(len(nodes))):
+                    nd = nodes[i]
+                    if nd["k"] not in holders:
+                        continue
+                    a = sum(1 for z in ev[:T] if z[0] == "arr" and z[1] == i and k in prov(z[3]))
+                    o = sum(1 for z in ev[:T] if z[0] == "rec" and z[1] == i and k in prov(z[2]))
+                    if a > o:
+                        where = nd["k"]
+                        break
+                if where != "?":
                     break
             add(where, "waiting-unheld", "%s received %r (derived from it) later, at log[%d]" % (
                 who, x, i0))
